@@ -71,6 +71,7 @@ def run(chk):
     for c in (K.setattr_contract(), K.deepcopy_contract()):
         chk.prove(c); chk.canary(c)
     from contracts import stores as KS
+    c = KS.filesystem_query_contract(); chk.prove(c); chk.canary(c)
     c = KS.memory_query_contract(); chk.prove(c); chk.canary(c)          # frame: the FilterSet / list a caller hands to MemorySource.query is never written to (in-place add on the argument = failed obligation)
     for k in ('datetime', 'stixdatetime'): chk.prove(KT.parse_contract(k))        # frame: a timestamp handed in (possibly a property value of another object) is never written to
     ins = inputs()
